@@ -284,8 +284,12 @@ func (g *c07Gen) stmts(depth int, vis []string) []*mj.Node {
 				g.labels["if-let"] = true
 			}
 			n.Body = g.stmts(depth+1, inner)
-			n.HasElse = true
-			n.Else = g.stmts(depth+1, inner)
+			if g.n(0, 2, "ifWithoutElse") == 0 {
+				g.labels["if-without-else"] = true // a false condition then runs nothing at all
+			} else {
+				n.HasElse = true
+				n.Else = g.stmts(depth+1, inner)
+			}
 			out = append(out, n)
 			out = append(out, g.probes(vis)...)
 			g.labels["read-after-if"] = true
@@ -341,12 +345,21 @@ func (g *c07Gen) stmts(depth int, vis []string) []*mj.Node {
 				pn := g.id("p")
 				n.Params = []mj.Param{{Name: pn, E: g.value(nil)}}
 				inner = with(vis, pn)
+				if g.n(0, 2, "paramFromDot") == 0 {
+					// the default is an expression of the call site: '.' in it is the caller's context, also
+					// when the block is given a context of its own
+					n.Params[0].E = mj.Dot()
+					g.labels["block-parameter-reads-dot"] = true
+				}
 			}
 			if g.n(0, 2, "bctx") == 0 {
 				n.Ctx = mj.Str(g.id("bctx"))
 				g.labels["block-context"] = true
 			}
 			n.Body = g.stmts(depth+1, inner)
+			if len(n.Params) > 0 {
+				n.Body = append([]*mj.Node{mj.Text("(" + n.Params[0].Name + "="), mj.Print(mj.Var(n.Params[0].Name)), mj.Text(")")}, n.Body...)
+			}
 			out = append(out, n)
 			out = append(out, g.probes(vis)...)
 			g.labels["read-after-block"] = true
